@@ -215,13 +215,25 @@ def run(prog: Program, res: Result) -> None:
                 if what == "weights" and dotted(xo) == "self._task.objective_weights" and "None" in norm(e.test):
                     return True
         return False
+    early = [mm for mm in mism if ctor and mm.lineno < ctor[0].lineno]
     if ctor and mism:
-        for mm in mism:
+        for mm in early:
             t = mm.test
-            if isinstance(t, ast.Compare) and len(t.ops) == 1 and isinstance(t.ops[0], ast.NotEq) and mm.lineno < ctor[0].lineno:
+            if isinstance(t, ast.UnaryOp) and isinstance(t.op, ast.Not) and isinstance(t.operand, ast.Compare) \
+                    and len(t.operand.ops) == 1 and isinstance(t.operand.ops[0], ast.Eq):
+                t = ast.Compare(left=t.operand.left, ops=[ast.NotEq()], comparators=t.operand.comparators)     # not a == b
+            if isinstance(t, ast.Compare) and len(t.ops) == 1 and isinstance(t.ops[0], ast.NotEq):
                 l, r = t.left, t.comparators[0]
                 if (count_of(l, "weights") and count_of(r, "objectives")) or (count_of(r, "weights") and count_of(l, "objectives")):
                     okm = True
+    if not okm and early:
+        # a ValueError guard precedes the construction but its test is not the recognised count comparison: undecided unless
+        # it plainly does not look at the weights at all
+        if any("objective_weights" in norm(origin(ia.node, x) if isinstance(x, ast.Name) else x, 400)
+               for mm in early for x in ast.walk(mm.test) if isinstance(x, (ast.Name, ast.Attribute))):
+            res.errors.append(f"{ia.loc()} _init_agent: the objective/weight count guard `{norm(early[0].test, 70)}` has a shape that is "
+                              f"not understood (undecided)")
+            okm = True
     res.ob(okm, f"{ia.loc()} _init_agent rejects objective/weight count mismatch before building the agent", "count-mismatch")
     if not okm:
         bad("R2-weight-count-mismatch-rejected", ia.node, "_init_agent does not raise ValueError when the number of objectives differs from the number of weights, before any agent is built",
